@@ -36,6 +36,11 @@ CALL_TOKENS = [
     (re.compile(r'std::cmp::PartialEq::ne$'), ('cmp', 'ne')),
     (re.compile(r'::checked_shl$|::wrapping_shl$|::overflowing_shl$|::unbounded_shl$'), ('shift', 'shl')),
     (re.compile(r'::checked_shr$|::wrapping_shr$|::overflowing_shr$|::unbounded_shr$'), ('shift', 'shr')),
+    (re.compile(r'std::ops::Neg::neg$'), ('unary', 'neg')),
+    (re.compile(r'std::ops::Not::not$'), ('unary', 'not')),
+    (re.compile(r'<impl str>::starts_with$'), ('str', 'starts_with')),
+    (re.compile(r'<impl str>::ends_with$'), ('str', 'ends_with')),
+    (re.compile(r'<impl str>::contains$'), ('str', 'contains')),
 ]
 BINOP_TOKENS = {'BitOr': ('bit', 'bitor'), 'BitXor': ('bit', 'bitxor'), 'BitAnd': ('bit', 'bitand'), 'Shl': ('shift', 'shl'), 'Shr': ('shift', 'shr'),
                 'Add': ('arith', 'add'), 'Sub': ('arith', 'sub'), 'Mul': ('arith', 'mul'), 'Div': ('arith', 'div'), 'Rem': ('arith', 'rem'),
@@ -120,6 +125,14 @@ def _tokens_in(prog, body, blocks, side_fn, depth=0):
                 if not re.match(r'^(i64|i128|i32|u64|rust_decimal::Decimal|value::Value)$', rv.get('aty', '')):
                     continue
                 out.append((cls, tok, (side_fn(body, rv['a'], bb), side_fn(body, rv['b'], bb)), '%s:%d' % (blk['span']['file'], st.get('span', blk['span'])['line'])))
+        for st in blk['stmts']:
+            if st['k'] == 'assign' and st['rv']['k'] == 'unop' and st['rv']['op'] in ('Not', 'Neg') and st['rv'].get('aty') in ('bool', 'i64', 'i128'):
+                out.append(('unary', st['rv']['op'].lower(), (side_fn(body, st['rv']['a'], bb), None), '%s:%d' % (blk['span']['file'], blk['span']['line'])))
+        tsw = blk['term']
+        if tsw['k'] == 'switch' and tsw.get('dty') == 'bool':
+            sc = _short_circuit(body, bb, side_fn)
+            if sc:
+                out.append(('bool', sc[0], sc[1], '%s:%d' % (blk['span']['file'], blk['span']['line'])))
         c = body.call_at(bb)
         if c is None:
             continue
@@ -148,6 +161,35 @@ def _tokens_in(prog, body, blocks, side_fn, depth=0):
                 return None
             out += _tokens_in(prog, g, blocks_g, side_g, depth + 1)
     return out
+
+
+def _short_circuit(body, sb, side_fn):
+    """`a || b` / `a && b` compile to a switch on a with one arm yielding a constant and the other b"""
+    t = body.blocks[sb]['term']
+    a_side = side_fn(body, t['discr'], sb)
+    listed = [v for v, _ in t['targets']]
+    tgt = {}
+    for v, tb in switch_edges(body, sb):
+        tv = (1 if listed == [0] else 0 if listed == [1] else None) if v == 'otherwise' else (1 if v != 0 else 0)
+        if tv is not None:
+            tgt[tv] = tb
+    if set(tgt) != {0, 1}:
+        return None
+    vals = {}
+    for tv, tb in tgt.items():
+        asg = [st for st in body.blocks[tb]['stmts'] if st['k'] == 'assign' and body.locals[st['pl']['l']]['ty'] == 'bool' and not st['pl']['p']]
+        if len(asg) != 1 or asg[0]['rv']['k'] != 'use':
+            return None
+        op = asg[0]['rv']['op']
+        if op['k'] == 'const':
+            vals[tv] = ('const', op_const_int(op))
+        else:
+            vals[tv] = ('side', side_fn(body, op, tb))
+    if vals[1] == ('const', 1) and vals[0][0] == 'side':
+        return ('or', (a_side, vals[0][1]))
+    if vals[0] == ('const', 0) and vals[1][0] == 'side':
+        return ('and', (a_side, vals[1][1]))
+    return None
 
 
 def _blocks_under_consts(g, consts):
@@ -374,4 +416,117 @@ def rule_compound(prog, rows):
             else:
                 obs.append(bad('COMPOUND', key, '`%s` does not perform what `%s` performs: %s vs %s' % (lit, lit[:-1], sig[lit], sig[lit[:-1]]), where[lit].where(), body=where[lit].name))
     obs.append(floor('COMPOUND', 'compound-operators', n, 8, 'the documented compound assignments'))
+    return obs
+
+
+UNARY_SPEC = {'-': ('unary', 'neg'), '!': ('unary', 'not'), 'not': ('unary', 'not'), '++': ('arith', 'add'), '--': ('arith', 'sub'), '+': None}
+
+
+def _consts_of(body):
+    out = set()
+    def see(op):
+        if isinstance(op, dict) and op.get('k') == 'const':
+            out.add(op.get('uneval') or op.get('s'))
+    for bb, i, pl, rv in body.assigns():
+        for k in ('op', 'a', 'b'):
+            if isinstance(rv.get(k), dict):
+                see(rv[k])
+        for o in rv.get('ops', []) or []:
+            see(o)
+    for c in body.live_calls:
+        for a in c.args:
+            see(a)
+    return out
+
+
+def rule_unary(prog, rows):
+    """built-in prefix / postfix operators: `-` negates, `!` / `not` complement a bool, `+` is the
+    identity, `++` / `--` add / subtract exactly one"""
+    obs = []
+    def side(body, op, at=None):
+        o = single_origin(trace_operand_at(body, op, at, through_calls=SIDE_THROUGH) if at is not None else trace_operand(body, op, through_calls=SIDE_THROUGH))
+        return 'L' if o is not None and o.kind == 'param' and o.data == 2 else None
+    n = 0
+    for r in rows:
+        if r['args'] or r['name'] not in UNARY_SPEC or not r['closure'] or r['closure'] not in prog.by_id:
+            continue
+        clo = prog.by_id[r['closure']]
+        if clo.arg_count < 2 or clo.locals[2]['ty'] != 'value::Value':
+            continue
+        n += 1
+        name = r['name']
+        key = 'TOP|unary|%s|%s' % (name, 'postfix' if name in ('++', '--') else 'prefix')
+        toks = [(c, t_) for (c, t_, s, w) in _tokens_in(prog, clo, clo.live_blocks, side) if c in ('unary', 'arith')]
+        want = UNARY_SPEC[name]
+        consts = _consts_of(clo)
+        problems = []
+        if want is None:
+            if toks:
+                problems.append('unary `+` must return its operand unchanged, but performs %s' % toks)
+        else:
+            if want not in toks:
+                problems.append('expected %s, found %s' % (want[1], [t_ for c, t_ in toks] or 'nothing'))
+            if [x for x in toks if x != want]:
+                problems.append('also performs %s' % [t_ for c, t_ in toks if (c, t_) != want])
+            if name in ('++', '--') and not any(str(c).endswith('::ONE') or str(c) in ('1', '1_i32', '1_i64') for c in consts):
+                problems.append('the step is not the constant one (%s)' % sorted(str(c) for c in consts if 'Decimal' in str(c)))
+        if problems:
+            obs.append(bad('TOP', key, 'built-in `%s`: %s' % (name, '; '.join(problems)), clo.where(), body=clo.name))
+        else:
+            obs.append(ok('TOP', key, 'built-in `%s` performs %s' % (name, want[1] if want else 'the identity'), clo.where()))
+    obs.append(floor('TOP', 'unary-operators', n, 6, '- + ! not ++ --'))
+    return obs
+
+
+def rule_fold(prog, rows):
+    """min / max compare each argument with the running result in the right direction; sum / mul fold
+    with + / * from the neutral element 0 / 1"""
+    obs = []
+    for r in rows:
+        if r['name'] not in ('min', 'max', 'sum', 'mul') or not r['closure'] or r['closure'] not in prog.by_id:
+            continue
+        clo = prog.by_id[r['closure']]
+        name = r['name']
+        key = 'TOP|fold|%s' % name
+        def side(body, op, at=None):
+            origins = trace_operand_at(body, op, at, through_calls=SIDE_THROUGH) if at is not None else trace_operand(body, op, through_calls=SIDE_THROUGH)
+            kinds = set()
+            for o in origins:
+                if o.kind == 'callres' and o.data.ruid is not None and o.data.args:
+                    # accessor applied to an iterator item
+                    io = single_origin(trace_operand(body, o.data.args[0], through_calls=SIDE_THROUGH))
+                    if io is not None and io.kind == 'callres' and r_order.FORWARD_NEXT_RE.match(io.data.rdef or ''):
+                        kinds.add('I'); continue
+                if o.kind == 'callres' and (o.data.callee or '').endswith('::unwrap'):
+                    kinds.add('A'); continue
+                kinds.add('A')
+            return kinds.pop() if len(kinds) == 1 else None
+        toks = _tokens_in(prog, clo, clo.live_blocks, side)
+        problems = []
+        if name in ('min', 'max'):
+            cmps = [(t_, s) for (c, t_, s, w) in toks if c == 'cmp' and t_ in ('lt', 'le', 'gt', 'ge')]
+            if not cmps:
+                problems.append('no ordering comparison')
+            for t_, s in cmps:
+                if s == ('A', 'I'):
+                    t_ = FLIP[t_]
+                elif s != ('I', 'A'):
+                    problems.append('cannot tell the argument from the running result in %s%s' % (t_, list(s)))
+                    continue
+                want = ('lt', 'le') if name == 'min' else ('gt', 'ge')
+                if t_ not in want:
+                    problems.append('keeps the argument when it is %s the running result (that computes the %s)' % ({'lt': 'below', 'le': 'below or equal to', 'gt': 'above', 'ge': 'above or equal to'}[t_], 'minimum' if t_ in ('lt', 'le') else 'maximum'))
+        else:
+            ar = sorted({t_ for (c, t_, s, w) in toks if c == 'arith'})
+            want = 'add' if name == 'sum' else 'mul'
+            if ar != [want]:
+                problems.append('folds with %s instead of %s' % (ar or 'nothing', want))
+            consts = _consts_of(clo)
+            neutral = '::ZERO' if name == 'sum' else '::ONE'
+            if not any(str(c).endswith(neutral) for c in consts):
+                problems.append('does not start from the neutral element %s' % neutral.strip(':'))
+        if problems:
+            obs.append(bad('TOP', key, '%s(): %s' % (name, '; '.join(sorted(set(problems)))), clo.where(), body=clo.name))
+        else:
+            obs.append(ok('TOP', key, '%s() %s' % (name, 'keeps the argument that compares %s the running result' % ('below' if name == 'min' else 'above') if name in ('min', 'max') else 'folds with %s from %s' % (want, neutral.strip(':'))), clo.where()))
     return obs
